@@ -1,0 +1,98 @@
+//go:build verif
+
+package hotline
+
+import (
+	"context"
+	"io"
+)
+
+// Export shims for the out-of-tree verification harness (/verif).  They only forward to the unexported
+// functions; nothing here is compiled unless the build tag "verif" is set.
+
+func (s *Server) VerifHandleNewConnection(ctx context.Context, rwc io.ReadWriteCloser, remoteAddr string) error {
+	return s.handleNewConnection(ctx, rwc, remoteAddr)
+}
+
+func (s *Server) VerifHandleFileTransfer(ctx context.Context, rwc io.ReadWriter, remoteAddr string) error {
+	return s.handleFileTransfer(context.WithValue(ctx, contextKeyReq, requestCtx{remoteAddr: remoteAddr}), rwc)
+}
+
+func (s *Server) VerifProcessOutbox() { s.processOutbox() }
+
+func (s *Server) VerifSendTransaction(t Transaction) error { return s.sendTransaction(t) }
+
+func (s *Server) VerifOutbox() chan Transaction { return s.outbox }
+
+func (s *Server) VerifHandler(t TranType) (HandlerFunc, bool) {
+	h, ok := s.handlers[t]
+	return h, ok
+}
+
+func (s *Server) VerifHandlerTypes() []TranType {
+	var out []TranType
+	for t := range s.handlers {
+		out = append(out, t)
+	}
+	return out
+}
+
+func (cc *ClientConn) VerifHandleTransaction(t Transaction) { cc.handleTransaction(t) }
+
+func VerifPerformHandshake(rw io.ReadWriter) error { return performHandshake(rw) }
+
+// VerifDecodeTransfer decodes a 16 byte file transfer preamble.
+func VerifDecodeTransfer(b []byte) (ref [4]byte, size [4]byte, err error) {
+	var t transfer
+	if _, err = t.Write(b); err != nil {
+		return ref, size, err
+	}
+	return t.ReferenceNumber, t.DataSize, nil
+}
+
+// VerifDecodeHandshake decodes a 12 byte handshake and reports whether it is valid.
+func VerifDecodeHandshake(b []byte) (valid bool, err error) {
+	var h handshake
+	if _, err = h.Write(b); err != nil {
+		return false, err
+	}
+	return h.Valid(), nil
+}
+
+func VerifFolderUploadPath(pathItemCount [2]byte, fileNamePath []byte) string {
+	fu := folderUpload{PathItemCount: pathItemCount, FileNamePath: fileNamePath}
+	return fu.FormattedPath()
+}
+
+func VerifReceiveFile(r io.Reader, targetFile, resForkFile, infoFork, counterWriter io.Writer) error {
+	return receiveFile(r, targetFile, resForkFile, infoFork, counterWriter)
+}
+
+// VerifFlatFileObject is the decoded form of a flattened file object header read from a stream.
+type VerifFlatFileObject struct {
+	Header     FlatFileHeader
+	InfoHeader FlatFileForkHeader
+	Info       FlatFileInformationFork
+	DataHeader FlatFileForkHeader
+}
+
+func VerifReadFlatFileObject(r io.Reader) (VerifFlatFileObject, error) {
+	var ffo flattenedFileObject
+	_, err := ffo.ReadFrom(r)
+	return VerifFlatFileObject{
+		Header:     ffo.FlatFileHeader,
+		InfoHeader: ffo.FlatFileInformationForkHeader,
+		Info:       ffo.FlatFileInformationFork,
+		DataHeader: ffo.FlatFileDataForkHeader,
+	}, err
+}
+
+// VerifFlatFileObjectReader returns the encoder of a flattened file object header built from its parts.
+func VerifFlatFileObjectReader(v VerifFlatFileObject) io.Reader {
+	return &flattenedFileObject{
+		FlatFileHeader:                v.Header,
+		FlatFileInformationForkHeader: v.InfoHeader,
+		FlatFileInformationFork:       v.Info,
+		FlatFileDataForkHeader:        v.DataHeader,
+	}
+}
